@@ -31,12 +31,12 @@ def T(mod, *names):
 
 
 PROPS = {
-    "C01": dict(level="proof", theorems=T("C01", "C01_normal", "C01_fast", "C01_total_normal", "C01_total_fast", "C01_zero"), gens=["C01"], gens_thorough=["C01", "C01_exhaustive"],
+    "C01": dict(level="proof", theorems=T("C01", "C01_normal", "C01_fast", "C01_total_normal", "C01_total_fast", "C01_zero") + T("EndToEnd", "E2E_write_read"), gens=["C01"], gens_thorough=["C01", "C01_exhaustive"],
                 rule="seeded well-formed graphs (arc subsets of de Bruijn graphs k<=3 quick / k<=5 thorough, mixed "
                      "out-degrees) x start x permutation table x message x mode x check length; a case is one encode "
                      "line; non-trivial = message value > 0 and the walk visits a branching vertex; distinct = hash "
                      "of the operation line"),
-    "C02": dict(level="proof", theorems=T("C02", "C02_windows", "C02_generated_subgraph", "C02_whole", "C02_ctor_partial", "C02_ctor_counterexample"), gens=["C02"],
+    "C02": dict(level="proof", theorems=T("C02", "C02_windows", "C02_generated_subgraph", "C02_whole", "C02_ctor_partial", "C02_ctor_counterexample") + T("EndToEnd", "E2E_generated_subgraph"), gens=["C02"],
                 rule="filter grid (run x GC range x motifs, and user-defined table predicates) x k x threshold x start x "
                      "message x table x mode, plus the constructor grid and the threshold grid; non-trivial = a "
                      "non-empty strand was emitted / configuration accepted"),
@@ -57,7 +57,7 @@ PROPS = {
                                           "C07_decode_rejects"), gens=["C07"],
                 rule="all strands up to a length bound x check lengths x all single edits, plus long random strands "
                      "and check lengths up to 200; non-trivial = length >= 2 with at least one ascent"),
-    "C08": dict(level="proof", theorems=T("C08", "C08_single", "C08_single_subst", "C08_multi", "C08_single_subst_only", "C08_single_ins", "C08_single_del") + T("C09", "C09_clean"), gens=["C08"],
+    "C08": dict(level="proof", theorems=T("C08", "C08_single", "C08_single_subst", "C08_multi", "C08_single_subst_only", "C08_single_ins", "C08_single_del") + T("C09", "C09_clean") + T("EndToEnd", "E2E_single_edit", "E2E_repair_then_decode"), gens=["C08"],
                 rule="generated graphs x walks x (all single interior edits | spaced multi-edit sets) x check x indel; "
                      "non-trivial = at least one detection"),
     "C09": dict(level="proof", theorems=T("C09", "C09_clean", "C09_sorted_nodup", "C09_check"), gens=["C09"],
